@@ -1,8 +1,411 @@
 import CM.Lib.Wire
-/-! Driver handler for C19 (stub: not built yet). -/
-namespace CM.Drv.C19
-open CM.Wire
+import CM.Model.Async
+/-!
+Driver handler for C19. Requests (after the `C19` prefix):
 
-def handle (_args _impl : List String) : String := bad
+* `retry <cancelAt|-> <o:dur,…> => <n:t,…|-> <result> <returnInstant>` — one run of the real
+  `doWithRetry` under virtual time. Outcomes `o` ok, `f` fail, `n` ErrNoRetry, `c` an error that
+  Is(context.Canceled); the last script entry repeats for ever. Results: `nil`, `gaveuperr` (a
+  plain error: the last attempt's, returned when the loop gives up), `canceled` (== context.Canceled),
+  `cancelederr` (f's error that Is(context.Canceled)), `noretry`.
+* `aretry <path> <o:dur,…> => <n:t,…>` — attempts of the issuer seen through the async
+  obtain / renew paths (`ManageAsync` → job manager → `doWithRetry`).
+* `jobs <label> <m> <event>… => <observation>… ran:<id>x<count>,…` — a history of a fresh job
+  manager; events `s,<id>,<name>,<kind>` (kind `b` blocking, `io`/`ie`/`ip` instant
+  ok/error/panic) and `r,<id>,<ok|err|panic>` (release a blocking job); one observation
+  `q:<ids>/n:<names>/a:<activeWorkers>/r:<running ids>` per event, at quiescence.
+* `dir <ca> <testCA> <defaultCA> <useTestCA> => <directory> <usingTestCA>` — the real
+  `newACMEClient` / `usingTestCA`.
+* `issue <attempts> <ca> <testCA> <defaultCA> <first> <second> => <dir:throttled,…> <certdir|-> <class>`.
+
+The second field of each answer is the executable specification judging the
+implementation's output (never the model's).
+-/
+namespace CM.Drv.C19
+open CM.Wire CM.Async
+
+def splitOnC (s : String) (c : String) : List String := if s = "-" then [] else s.splitOn c
+
+def showList (l : List String) (sep : String) : String :=
+  if l.isEmpty then "-" else String.intercalate sep l
+
+/-! ### retry -/
+
+def decOutcome : String → Option Outcome
+  | "o" => some .ok | "f" => some .fail | "n" => some .noRetry | "c" => some .canceledErr
+  | _ => none
+
+def decScript (tok : String) : Option (List Att) :=
+  (splitOnC tok ",").foldr (fun p acc =>
+    match p.splitOn ":", acc with
+    | [o, d], some l => match decOutcome o, d.toNat? with
+      | some o, some d => some ({ out := o, dur := d } :: l)
+      | _, _ => none
+    | _, _ => none) (some [])
+
+def scriptFn (l : List Att) : Nat → Att :=
+  fun k => l.getD k (l.getLast?.getD { out := .fail, dur := 0 })
+
+def decTrace (tok : String) : Option (List (Nat × Nat)) :=
+  (splitOnC tok ",").foldr (fun p acc =>
+    match p.splitOn ":", acc with
+    | [n, t], some l => match n.toNat?, t.toNat? with
+      | some n, some t => some ((n, t) :: l)
+      | _, _ => none
+    | _, _ => none) (some [])
+
+def showTrace (tr : List (Nat × Nat)) : String :=
+  showList (tr.map (fun (n, t) => toString n ++ ":" ++ toString t)) ","
+
+def showRes : Res → String
+  | .ok => "nil" | .gaveUpErr => "gaveuperr" | .canceled => "canceled" | .canceledErr => "cancelederr"
+  | .noRetry => "noretry" | .outOfFuel => "fuel"
+
+def showRetry (o : RetryOut) : String :=
+  showTrace o.trace ++ " " ++ showRes o.res ++ " " ++ toString o.ret
+
+/-- result token of the implementation as a `Res` -/
+def decRes : String → Option Res
+  | "nil" => some .ok
+  | "gaveuperr" => some .gaveUpErr
+  | "canceled" => some .canceled
+  | "cancelederr" => some .canceledErr
+  | "noretry" => some .noRetry
+  | _ => none
+
+/-- the executable specification of `CM/Model/Async.lean` applied to an observed run -/
+def specRetry (sc : Nat → Att) (cancel : Option Nat) (tr : List (Nat × Nat)) (res : String) (ret : Nat) : String :=
+  match specAttempts sc cancel tr with
+  | some r => "bad:" ++ r
+  | none =>
+    match decRes res with
+    | none => "bad:result"
+    | some r => match specEnd sc cancel tr r ret with
+      | some why => "bad:" ++ why
+      | none => "ok"
+
+def tagRetry (o : RetryOut) (cancel : Option Nat) : String :=
+  showRes o.res ++ ":" ++ toString (min o.trace.length 30) ++ (if cancel.isSome then "c" else "")
+
+/-! ### job manager -/
+
+inductive Kind | blocking | instOk | instErr | instPanic
+  deriving DecidableEq
+
+structure SEv where
+  submit : Bool
+  id : Nat
+  name : String
+  kind : Kind        -- for submit
+  outcome : String   -- for release
+
+def decKind : String → Option Kind
+  | "b" => some .blocking | "io" => some .instOk | "ie" => some .instErr | "ip" => some .instPanic
+  | _ => none
+
+def decSEv (tok : String) : Option SEv :=
+  match tok.splitOn "," with
+  | ["s", id, nm, k] => match id.toNat?, decStr nm, decKind k with
+    | some id, some nm, some k => some { submit := true, id := id, name := String.ofList nm, kind := k, outcome := "" }
+    | _, _, _ => none
+  | ["r", id, o] => match id.toNat? with
+    | some id => if o = "ok" || o = "err" || o = "panic" then
+        some { submit := false, id := id, name := "", kind := .blocking, outcome := o } else none
+    | none => none
+  | _ => none
+
+/-- model state of a history: the LTS state, the kinds of the jobs, names seen, take counts -/
+structure Hist where
+  s : JM
+  kinds : List (Nat × Kind)
+  seen : List String
+  taken : List Nat
+
+def findIdle (s : JM) : Nat → Option Nat
+  | 0 => none
+  | n + 1 => match findIdle s n with
+    | some w => some w
+    | none => if s.ws n = .idle then some n else none
+
+def findRunning (s : JM) (id : Nat) : Nat → Option Nat
+  | 0 => none
+  | n + 1 => match findRunning s id n with
+    | some w => some w
+    | none => match s.ws n with
+      | .running j => if j.id = id then some n else none
+      | _ => none
+
+/-- run the idle workers until each of them is inside a blocking job or has exited (what the
+real workers do between two script events, up to quiescence) -/
+def settle : Nat → Hist → Option Hist
+  | 0, h => some h
+  | fuel + 1, h =>
+    match findIdle h.s h.s.nextW with
+    | none => some h
+    | some w =>
+      match h.s.queue with
+      | [] => match step h.s (.workerExit w) with
+        | some s' => settle fuel { h with s := s' }
+        | none => none
+      | j :: _ =>
+        match step h.s (.take w) with
+        | none => none
+        | some s1 =>
+          let h1 := { h with s := s1, taken := j.id :: h.taken }
+          match (h.kinds.lookup j.id).getD .blocking with
+          | .blocking => settle fuel h1
+          | k =>
+            let e : Ev := if k = .instPanic then .jobPanic w else .jobReturn w (k = .instOk)
+            match step s1 e with
+            | none => none
+            | some s2 => match step s2 (.release w) with
+              | none => none
+              | some s3 => settle fuel { h1 with s := s3 }
+
+def applySEv (h : Hist) (e : SEv) : Option Hist :=
+  let fuel := 2 * (h.s.queue.length + h.s.nextW) + 8
+  if e.submit then
+    match step h.s (.submit e.id e.name) with
+    | none => none
+    | some s' =>
+      settle fuel { h with s := s', kinds := (e.id, e.kind) :: h.kinds
+                           seen := if h.seen.contains e.name then h.seen else e.name :: h.seen }
+  else
+    match findRunning h.s e.id h.s.nextW with
+    | none => none
+    | some w =>
+      let ev : Ev := if e.outcome = "panic" then .jobPanic w else .jobReturn w (e.outcome = "ok")
+      match step h.s ev with
+      | none => none
+      | some s1 => match step s1 (.release w) with
+        | none => none
+        | some s2 => settle fuel { h with s := s2 }
+
+def insertSorted (lt : α → α → Bool) (x : α) : List α → List α
+  | [] => [x]
+  | y :: r => if lt x y then x :: y :: r else y :: insertSorted lt x r
+
+def sortBy (lt : α → α → Bool) (l : List α) : List α := l.foldr (insertSorted lt) []
+
+def runningIds (s : JM) : Nat → List Nat
+  | 0 => []
+  | n + 1 => match s.ws n with
+    | .running j => j.id :: runningIds s n
+    | _ => runningIds s n
+
+def showIds (l : List Nat) : String := showList (l.map toString) ","
+
+def showObs (h : Hist) : String :=
+  let names := sortBy (fun a b => decide (a < b)) (h.seen.filter (fun n => h.s.names n))
+  "q:" ++ showIds (h.s.queue.map (·.id)) ++
+  "/n:" ++ showList (names.map (fun n => encStr n.toList)) "," ++
+  "/a:" ++ toString h.s.active ++
+  "/r:" ++ showIds (sortBy (fun a b => decide (a < b)) (runningIds h.s h.s.nextW))
+
+def runHist (m : Nat) (evs : List SEv) : Option (List String × Hist) :=
+  evs.foldl (fun acc e => match acc with
+    | none => none
+    | some (obs, h) => match applySEv h e with
+      | none => none
+      | some h' => some (obs ++ [showObs h'], h')) (some ([], { s := init m, kinds := [], seen := [], taken := [] }))
+
+/-- one implementation observation -/
+structure Obs where
+  q : List Nat
+  n : List String
+  a : Nat
+  r : List Nat
+
+def decIds (s : String) : Option (List Nat) :=
+  (splitOnC s ",").foldr (fun p acc => match p.toNat?, acc with
+    | some n, some l => some (n :: l)
+    | _, _ => none) (some [])
+
+def decObs (tok : String) : Option Obs :=
+  match tok.splitOn "/" with
+  | [q, n, a, r] =>
+    if q.startsWith "q:" && n.startsWith "n:" && a.startsWith "a:" && r.startsWith "r:" then
+      match decIds (q.drop 2).toString, (a.drop 2).toString.toNat?, decIds (r.drop 2).toString with
+      | some q, some a, some r =>
+        let ns := (splitOnC (n.drop 2).toString ",").foldr (fun p acc => match decStr p, acc with
+          | some s, some l => some (String.ofList s :: l)
+          | _, _ => none) (some [])
+        match ns with
+        | some ns => some { q := q, n := ns, a := a, r := r }
+        | none => none
+      | _, _, _ => none
+    else none
+  | _ => none
+
+def decRan (tok : String) : Option (List (Nat × Nat)) :=
+  if !tok.startsWith "ran:" then none else
+  (splitOnC (tok.drop 4).toString ",").foldr (fun p acc => match p.splitOn "x", acc with
+    | [i, c], some l => match i.toNat?, c.toNat? with
+      | some i, some c => some ((i, c) :: l)
+      | _, _ => none
+    | _, _ => none) (some [])
+
+def dedup (l : List String) : List String := l.foldr (fun x acc => if acc.contains x then acc else x :: acc) []
+
+/-- executable specification of a job-manager history, from the script and the
+implementation's own observations: (per observation) no non-empty name twice among the live
+(queued or running) jobs; `names` = the names of the live jobs — no name stuck, none missing; at
+most `m` jobs run, none waits while a slot is free, no worker lingers; (per submission) a
+duplicate of a live name is dropped, everything else is accepted; (at the end) everything
+drained, accepted jobs ran exactly once, dropped ones never -/
+def specJobs (m : Nat) (evs : List SEv) (obs : List Obs) (ran : List (Nat × Nat)) : String :=
+  let nameOf (id : Nat) : String := match evs.find? (fun e => e.submit && e.id = id) with
+    | some e => e.name
+    | none => ""
+  let rec go (evs : List SEv) (obs : List Obs) (prev : Obs) (must : List (Nat × Bool)) : String × List (Nat × Bool) :=
+    match evs, obs with
+    | e :: er, o :: orest =>
+      let live := o.q ++ o.r
+      let liveNames := (live.map nameOf).filter (· ≠ "")
+      let expectNames := sortBy (fun a b => decide (a < b)) (dedup liveNames)
+      let prevLive := prev.q ++ prev.r
+      let dupExpected := e.submit && e.name ≠ "" && prevLive.any (fun (i : Nat) => nameOf i == e.name)
+      let must' := if e.submit then (e.id, !dupExpected) :: must else must
+      if liveNames.length ≠ (dedup liveNames).length then ("bad:duplicate-name-live", must')
+      else if o.n.any (fun n => !expectNames.contains n) then ("bad:name-stuck", must')
+      else if expectNames.any (fun n => !o.n.contains n) then ("bad:name-missing", must')
+      else if o.r.length > m then ("bad:too-many-workers", must')
+      else if !o.q.isEmpty && o.r.length < m then ("bad:queued-while-slot-free", must')
+      else if o.a ≠ o.r.length then ("bad:worker-count", must')
+      else if e.submit && dupExpected && live.contains e.id then ("bad:duplicate-accepted", must')
+      else if e.submit && !dupExpected && e.kind = .blocking && !live.contains e.id then ("bad:job-dropped", must')
+      else go er orest o must'
+    | [], [] =>
+      if !prev.q.isEmpty || !prev.r.isEmpty then ("bad:not-drained", must) else ("ok", must)
+    | _, _ => ("bad-op", must)
+  let (v, must) := go evs obs { q := [], n := [], a := 0, r := [] } []
+  if v ≠ "ok" then v
+  else
+    let bad := must.find? (fun (id, acc) =>
+      let c := (ran.lookup id).getD 0
+      if acc then c ≠ 1 else c ≠ 0)
+    match bad with
+    | none => "ok"
+    | some (id, acc) =>
+      let c := (ran.lookup id).getD 0
+      if acc then (if c = 0 then "bad:accepted-job-never-ran" else "bad:job-ran-twice")
+      else "bad:duplicate-ran"
+
+/-! ### (c) -/
+
+def decDOut : String → Option DOut
+  | "ok" => some .ok | "err" => some .err | "429" => some .rateLimited | _ => none
+
+def showClass : ErrClass → String
+  | .none => "none" | .retryable => "retryable" | .noRetry => "noretry"
+
+def b01 (b : Bool) : String := if b then "1" else "0"
+
+def handle (args impl : List String) : String :=
+  match args with
+  | ["retry", c, sc] =>
+    let cancel : Option (Option Nat) := if c = "-" then some none else c.toNat?.map some
+    match cancel, decScript sc with
+    | some cancel, some l =>
+      if l.isEmpty then bad else
+      let f := scriptFn l
+      let o1 := retry { script := f, cancelAt := cancel, tie := fun _ => false }
+      let o2 := retry { script := f, cancelAt := cancel, tie := fun _ => true }
+      let implS := String.intercalate " " impl
+      -- a select with the timer and the cancellation ready at the same instant is resolved
+      -- pseudo-randomly by Go: both resolutions are runs of the model
+      let o := if showRetry o1 = implS then o1 else if showRetry o2 = implS then o2 else o1
+      let spec := match impl with
+        | [tr, res, ret] => match decTrace tr, ret.toNat? with
+          | some tr, some ret => specRetry f cancel tr res ret
+          | _, _ => "bad-op"
+        | _ => "-"
+      reply (showRetry o) spec (tagRetry o cancel ++ (if showRetry o1 ≠ showRetry o2 then "t" else ""))
+    | _, _ => bad
+  | ["aretry", _path, sc] =>
+    match decScript sc with
+    | some l =>
+      if l.isEmpty then bad else
+      let f := scriptFn l
+      let o := retry { script := f, cancelAt := none, tie := fun _ => false }
+      let spec := match impl with
+        | [tr] => match decTrace tr with
+          | some tr => match specAttempts f none tr with
+            | some r => "bad:" ++ r
+            | none => if tr.isEmpty then "bad:no-attempt"
+                      else if (f (tr.length - 1)).out = .fail then "bad:stopped-retrying" else "ok"
+          | none => "bad-op"
+        | _ => "-"
+      reply (showTrace o.trace) spec ("async:" ++ toString (min o.trace.length 30))
+    | none => bad
+  | "jobs" :: label :: m :: evToks =>
+    match m.toNat?, evToks.foldr (fun t acc => match decSEv t, acc with
+        | some e, some l => some (e :: l)
+        | _, _ => none) (some []) with
+    | some m, some evs =>
+      let model := match runHist m evs with
+        | none => "stuck"
+        | some (obs, h) =>
+          let ids := sortBy (fun a b => decide (a < b)) (evs.filter (·.submit) |>.map (·.id))
+          let ran := ids.map (fun i => toString i ++ "x" ++ toString (h.taken.count i))
+          String.intercalate " " (obs ++ ["ran:" ++ showList ran ","])
+      let spec :=
+        if impl.isEmpty then "-" else
+        let obsT := impl.dropLast
+        let obs := obsT.foldr (fun t acc => match decObs t, acc with
+          | some o, some l => some (o :: l)
+          | _, _ => none) (some [])
+        match obs, impl.getLast?.bind decRan with
+        | some obs, some ran => specJobs m evs obs ran
+        | _, _ => "bad-op"
+      let tag := label ++ ":" ++ toString m ++ ":" ++ toString (min evs.length 12) ++
+        (if evs.any (fun e => e.outcome = "panic" || e.kind = .instPanic) then "p" else "")
+      reply model spec tag
+    | _, _ => bad
+  | ["dir", ca, tca, dca, ut] =>
+    match decStr ca, decStr tca, decStr dca with
+    | some ca, some tca, some dca =>
+      let i : IssueIn := { attempts := 0, ca := String.ofList ca, testCA := String.ofList tca
+                           defaultCA := String.ofList dca, first := .ok, second := .ok }
+      let d := directory i (ut = "1")
+      let model := encStr d.toList ++ " " ++ b01 (usingTestCA i d)
+      let spec := match impl with
+        | [o, _] => match decStr o with
+          | some o =>
+            let o := String.ofList o
+            if ut ≠ "1" && o ≠ prodDir i then "bad:production-client-other-directory"
+            else if ut = "1" && i.testCA ≠ "" && o ≠ i.testCA then "bad:test-ca-not-used"
+            else if ut = "1" && i.testCA = "" && o ≠ prodDir i then "bad:production-client-other-directory"
+            else "ok"
+          | none => "bad-op"
+        | _ => "-"
+      reply model spec ((if ut = "1" then "T" else "P") ++ (if tca = [] then "e" else if tca = ca then "s" else "d") ++
+        (if ca = [] then "0" else if hasScheme ca then "u" else "h"))
+    | _, _, _ => bad
+  | ["issue", att, ca, tca, dca, f, s] =>
+    match att.toNat?, decStr ca, decStr tca, decStr dca, decDOut f, decDOut s with
+    | some att, some ca, some tca, some dca, some f, some s =>
+      let i : IssueIn := { attempts := att, ca := String.ofList ca, testCA := String.ofList tca
+                           defaultCA := String.ofList dca, first := f, second := s }
+      let o := issue i
+      let calls := showList (o.calls.map (fun c => encStr c.dir.toList ++ ":" ++ b01 c.throttled)) ","
+      let cert := match o.cert with | some d => encStr d.toList | none => "-"
+      let model := calls ++ " " ++ cert ++ " " ++ showClass o.err
+      let spec := match impl with
+        | [ic, icert, _] =>
+          let firstDir := match (splitOnC ic ",").head? with
+            | some c => (c.splitOn ":").head?.bind decStr |>.map String.ofList
+            | none => none
+          let certBad := if icert = "-" then false else match decStr icert with
+            | some d => String.ofList d ≠ prodDir i && String.ofList d ≠ i.ca
+            | none => true
+          if certBad then "bad:test-certificate-returned"
+          else if att > 0 && i.testCA ≠ "" && i.testCA ≠ i.ca && firstDir ≠ some i.testCA then "bad:test-ca-not-first"
+          else "ok"
+        | _ => "-"
+      reply model spec ((if att > 0 then "R" else "F") ++ (if tca = [] then "e" else if tca = ca then "s" else "d") ++
+        showClass o.err ++ toString o.calls.length)
+    | _, _, _, _, _, _ => bad
+  | _ => bad
 
 end CM.Drv.C19
